@@ -84,14 +84,18 @@ func c03Run(w *W, enumerate bool) {
 		}
 		faults = append(faults, c03Fault{pos: simrt.Choose(n), kind: 1 + simrt.Choose(fkNumKinds-1)})
 	}
+	// a processing function that honours its context: when the context it was
+	// handed has ended (the caller cancelled, or the group aborted) it returns
+	// that context's error, which is a context error like any other
+	ctxAware := w.faulty() && simrt.Choose(3) == 0
 	realCancel := w.faulty() && simrt.Choose(6) == 0
 	cancelAt := simrt.Choose(100)
 	var fdesc []string
 	for _, f := range faults {
 		fdesc = append(fdesc, fmt.Sprintf("%s@%d", fkNames[f.kind], f.pos))
 	}
-	w.Config("%s n=%d w=%d contErr=%v contPanic=%v inclCtx=%v excl=%d collector=%v faults=%v realCancel=%v",
-		c03Constructs[cons], n, workers, contErr, contPanic, inclCtx, excl, useCollector, fdesc, realCancel)
+	w.Config("%s n=%d w=%d contErr=%v contPanic=%v inclCtx=%v excl=%d collector=%v faults=%v realCancel=%v ctxAware=%v",
+		c03Constructs[cons], n, workers, contErr, contPanic, inclCtx, excl, useCollector, fdesc, realCancel, ctxAware)
 	w.State(fmt.Sprintf("%s ce=%v cp=%v ic=%v ex=%d f=%v", c03Constructs[cons], contErr, contPanic, inclCtx, excl, fdesc))
 
 	var options []fun.OptionProvider[*fun.WorkerGroupConf]
@@ -141,7 +145,8 @@ func c03Run(w *W, enumerate bool) {
 		return false
 	}
 	// invoke is the user function's body for item.
-	invoke := func(item int) error {
+	var invoke func(ctx context.Context, item int) error
+	invoke0 := func(item int) error {
 		me := simrt.Self()
 		if failedTask != "" {
 			if me == failedTask {
@@ -184,6 +189,14 @@ func c03Run(w *W, enumerate bool) {
 		return nil
 	}
 
+	invoke = func(ctx context.Context, item int) error {
+		if ctxAware && faultFor(item) == fkNone && ctx.Err() != nil {
+			calls = append(calls, &c03Call{item: item, task: simrt.Self(), kind: fkCtxErr, start: simrt.Stamp()})
+			w.Fault("callback-ctxerr(own context ended)")
+			return ctx.Err()
+		}
+		return invoke0(item)
+	}
 	items := make([]int, n)
 	for i := range items {
 		items[i] = i
@@ -197,16 +210,16 @@ func c03Run(w *W, enumerate bool) {
 		var run fun.Worker
 		switch cons {
 		case 0:
-			run = fun.SliceIterator(items).ProcessParallel(func(ctx context.Context, v int) error { return invoke(v) }, options...)
+			run = fun.SliceIterator(items).ProcessParallel(func(ctx context.Context, v int) error { return invoke(ctx, v) }, options...)
 		case 1:
 			run = func(ctx context.Context) error {
-				return itertool.ParallelForEach(ctx, fun.SliceIterator(items), func(ctx context.Context, v int) error { return invoke(v) }, options...)
+				return itertool.ParallelForEach(ctx, fun.SliceIterator(items), func(ctx context.Context, v int) error { return invoke(ctx, v) }, options...)
 			}
 		case 2:
 			ops := make([]fun.Worker, n)
 			for i := range ops {
 				i := i
-				ops[i] = func(context.Context) error { return invoke(i) }
+				ops[i] = func(ctx context.Context) error { return invoke(ctx, i) }
 			}
 			run = func(ctx context.Context) error { return itertool.Worker(ctx, fun.SliceIterator(ops), options...) }
 		}
@@ -217,7 +230,7 @@ func c03Run(w *W, enumerate bool) {
 	case 3, 4:
 		var out *fun.Iterator[int]
 		if cons == 3 {
-			out = fun.Map(fun.SliceIterator(items), func(ctx context.Context, v int) (int, error) { return v, invoke(v) }, options...)
+			out = fun.Map(fun.SliceIterator(items), func(ctx context.Context, v int) (int, error) { return v, invoke(ctx, v) }, options...)
 		} else {
 			var idx atomic.Int64
 			out = fun.Producer[int](func(ctx context.Context) (int, error) {
@@ -225,7 +238,7 @@ func c03Run(w *W, enumerate bool) {
 				if i >= n {
 					return 0, io.EOF
 				}
-				return i, invoke(i)
+				return i, invoke(ctx, i)
 			}).GenerateParallel(options...)
 		}
 		simrt.Spawn("consumer", func() {
